@@ -221,6 +221,15 @@ End Stream.
 
 (* ---------------------------------------------------------------------------------------------- cases *)
 
+(* binary strings of a case (hashes, streams) are written as lower-case hexadecimal literals: Coq reads a string literal
+   much faster than a list of numbers *)
+Definition hexval (c : N) : N := if N.leb c 57 then N.sub c 48 else N.sub c 87.
+Fixpoint unhex (x : str) : str :=
+  match x with
+  | a :: b :: r => N.add (N.mul 16 (hexval a)) (hexval b) :: unhex r
+  | _ => []
+  end.
+
 (* the path hasher of a case: the table of the hashes the real PathHasher returned *)
 Definition table_ph (tbl : smap) (path : str) : str :=
   match lookup path tbl with Some h => h | None => [] end.
